@@ -52,9 +52,8 @@ theorem failed_load_leaves_no_residue (hN : Names L E) (f : Nat) (s : St L) (m :
     | mk r s1 =>
       cases r with
       | error e1 =>
-        simp only [h1]
         exact loadOne_failed_unregistered L E (loadAll L E f) m s s1 e1 h1 hp hlib
-      | ok u => simp [h1, loadAll] at hfail
+      | ok u => simp [h1] at hfail
   refine ⟨hreg, ?_, ?_, ?_⟩
   · cases h : ahas (step L E (f + 1) s (.load m)).2.eps m with
     | false => rfl
@@ -533,6 +532,49 @@ open Witness in
 example :
     let s := run descLang envUnload 30 init [.transpile ab, .resubmit { classes := [{ name := ['M'], methods := [{ name := ['g'], badName := true }] }] }]
     s.deps.length = 1 ∧ s.proc.length = 1 ∧ (run descLang envUnload 30 s [.transpile a]).deps.length = 1 := by
+  decide +kernel
+
+/-! ### the shipped library closure (generated from the sources on every run) -/
+
+/-- `BaseWorld.reach` for the shipped closure: every module of it is reached from `library_paths()` through imports of files -/
+theorem lib_closure_reach : ∀ b, b ∈ libNames → LibReach descLang libEnv b := by
+  intro b hb
+  have h : libNames.all (fun b => decide (b ∈ reachN descLang libEnv 2)) = true := by decide +kernel
+  exact reachN_sound descLang libEnv 2 b (by simpa using List.all_eq_true.1 h b hb)
+
+/-- `World.libs_base` and `World.base_closed` for the shipped closure: the libraries are in it, and every import of a file of the
+    closure is a module of the closure -/
+theorem lib_closure_closed :
+    (∀ l, l ∈ libEnv.libs → l ∈ libNames) ∧
+    (∀ y, y ∈ libNames → ∀ src t, libEnv.disk y = some src → descLang.parse src = some t → ∀ b, b ∈ descLang.imports t → b ∈ libNames) := by
+  have h1 : libEnv.libs.all (fun l => decide (l ∈ libNames)) = true := by decide +kernel
+  have h2 : libPool.all (fun yd => yd.2.imports.all (fun mn => decide (mn.1 ∈ libNames))) = true := by decide +kernel
+  refine ⟨fun l hl => by simpa using List.all_eq_true.1 h1 l hl, ?_⟩
+  intro y _ src t hd hp b hb
+  have hmem : (y, src) ∈ libPool := alookup_mem (by simpa [libEnv, poolEnv] using hd)
+  have hsrc := List.all_eq_true.1 h2 (y, src) hmem
+  simp only [descLang] at hp hb
+  split at hp
+  · cases hp
+    simp only [List.mem_map] at hb
+    obtain ⟨mn, hmn, e⟩ := hb
+    have := List.all_eq_true.1 hsrc mn hmn
+    subst e
+    simpa using this
+  · cases hp
+
+/-- the bounded instance of the hypothesis `BaseWorld.load` of `det_all` on the shipped closure: after EVERY history of at most three
+    operations (load / transpile / unload of any module of the closure) from a fresh process, loading the closure succeeds, registers
+    nothing else, completes every module and gives every module the table of a plain load in a fresh process. (The hypothesis
+    itself — every reachable base-only state, every fuel — stays a hypothesis: the closure loads through modules that are still
+    in the middle of being loaded, which the acyclic reference semantics does not cover.) -/
+theorem baseWorld_load_shipped_partial : ∀ h, h ∈ libHistories → libLoadOk h = true := by
+  decide +kernel
+
+/-- non-vacuity: the closure is not empty, the histories include unloading a library module after loading a dependent one, and
+    the tables compared are not empty -/
+example : libNames.length ≥ 2 ∧ libHistories.length = 1 + libOps.length + libOps.length * libOps.length + libOps.length * libOps.length * libOps.length ∧
+    libNames.all (fun b => decide ((tableOf libCanon.db b).length ≥ 4)) = true := by
   decide +kernel
 
 end Tranp.C04
